@@ -241,7 +241,7 @@ def judge_boundary(ctx, R, rig, model, op, ops, kd, pre_commit_dump, stats, relo
                 if k not in ("persistent", "detached"):
                     vio("persistent-object-not-restored-after-rollback", f"{type(o).__name__} slot {slot} was persistent at the frame, is {k}", {"slot": slot})
             elif was == "deleted" and kind == "spr":
-                if k != "deleted":
+                if k not in ("deleted", "detached"):   # detached: expunged (cascade) by the history, S5
                     vio("outer-delete-undone-by-savepoint-rollback", f"{type(o).__name__} slot {slot} was deleted before the savepoint, is {k}", {"slot": slot})
     # ---- relation, first without loading anything, then after loading everything
     reader = rig.read_committed if kind in ("commit", "rollback", "close") else rig.read_txn
